@@ -12,7 +12,7 @@ class TMatchT(T):
 
     def __init__(self):
         d = z3.Datatype('Match')
-        d.declare('mk', ('pid', z3.IntSort()), ('subj', z3.StringSort()), ('pos', z3.IntSort()))
+        d.declare('mk_Match', ('pid', z3.IntSort()), ('subj', z3.StringSort()), ('pos', z3.IntSort()))
         self._dt = d.create()
 
     def sort(self):
@@ -28,7 +28,7 @@ MATCH = TMatchT()
 def _field(term, k):
     """Field k of a Match term without z3.simplify (which rewrites seq.nth inside the arguments into solver-internal forms):
     a constructor application is taken apart syntactically, anything else goes through the accessor."""
-    if z3.is_app(term) and term.decl().eq(MATCH._dt.mk):
+    if z3.is_app(term) and term.decl().eq(MATCH._dt.mk_Match):
         return term.arg(k)
     acc = (MATCH._dt.pid, MATCH._dt.subj, MATCH._dt.pos)[k]
     return z3.simplify(acc(term))
@@ -74,7 +74,7 @@ class RxWorld:
         else:
             lang = info.match_lang()
         matched = z3.InRe(tail, lang)
-        mterm = MATCH._dt.mk(z3.IntVal(pid), s, pos)
+        mterm = MATCH._dt.mk_Match(z3.IntVal(pid), s, pos)
         res = V(OPT_MATCH, z3.If(matched, OPT_MATCH.some(mterm), OPT_MATCH.none()))
         if search:
             return res
@@ -149,7 +149,7 @@ class RxWorld:
             if g not in info.optional:
                 st.pc.append(ht)
             anyg.append(ht)
-        return V(MATCH, MATCH._dt.mk(z3.IntVal(pid), subj, pos))
+        return V(MATCH, MATCH._dt.mk_Match(z3.IntVal(pid), subj, pos))
 
     def group(self, eng, m: V, g, st, node):
         pidt = _field(m.term, 0)
